@@ -264,6 +264,10 @@ def gen_item(rng, depth, inopt=False, inarr=False):
         if inopt:
             l, rr = ('C', '('), ('C', ')')
         return [('1', 'left', False, [l])] + gen_seq(rng, depth - 1, rng.randint(1, 3), inopt) + [('1', 'right', False, [rr])]
+    if r < 0.915:      # \left\| .. \right\|_{..}: what \norm[..]{..} (optional argument with an empty default) stands for
+        sub = gen_seq(rng, depth - 1, rng.randint(1, 2), True) if rng.random() < 0.5 else []
+        return ([('1', 'left', False, [BAR])] + gen_seq(rng, depth - 1, rng.randint(1, 3), inopt) +
+                [('1', 'right', False, [BAR]), ('D', True, sub)])
     if r < 0.95:
         return [('1', rng.choice(BOXES), True, gen_text(rng, depth - 1, inopt))]
     if inopt or inarr:
@@ -350,20 +354,55 @@ def dec(words, i=0):
         else: raise ValueError(w)
 
 
-USER_MACROS = {  # name -> (nargs, definition, matcher)
+USER_MACROS = {  # name -> definition (the expansion of each is known by construction, see Writer)
     'al': '\\newcommand{\\al}{\\alpha}',
     'R': '\\newcommand{\\R}{\\mathbb{R}}',
     'fr': '\\newcommand{\\fr}[2]{\\frac{#1}{#2}}',
     'sq': '\\newcommand{\\sq}[1]{\\sqrt{#1}}',
     'half': '\\def\\half{\\frac{1}{2}}',
+    # empty expansions
+    'nothing': '\\newcommand{\\nothing}{}',
+    'todo': '\\newcommand{\\todo}[1]{}',
+    'drop': '\\newcommand{\\drop}[2][]{}',
+    # pass-through macros of every signature kind: the call expands to its arguments
+    'wrap': '\\newcommand{\\wrap}[1]{#1}',
+    'dwrap': '\\def\\dwrap#1{#1}',
+    'both': '\\newcommand{\\both}[2]{#1#2}',
+    'opt': '\\newcommand{\\opt}[2][]{#1#2}',         # optional argument with an EMPTY default
+    'optd': '\\newcommand{\\optd}[2][0]{#1#2}',      # optional argument with default 0
+    'mo': '\\newcommand{\\mo}[1]{\\ifmmode #1\\fi}',  # a conditional inside a user macro
+    'norm': '\\newcommand{\\norm}[2][]{\\left\\|#2\\right\\|_{#1}}',
 }
 PREAMBLE = ''.join(USER_MACROS.values())
+JUNK = ['x', 'fix me', 'a+b', '\\alpha', '1', '']
+BAR = ('X', '|')
+
+
+def single_group(t):
+    """the text is exactly one brace group (TeX strips those braces from an optional / delimited argument)"""
+    if len(t) < 2 or t[0] != '{' or t[-1] != '}':
+        return False
+    depth = 0
+    for i, ch in enumerate(t):
+        if ch == '\\':
+            continue
+        if ch == '{' and (i == 0 or t[i - 1] != '\\'):
+            depth += 1
+        elif ch == '}' and t[i - 1] != '\\':
+            depth -= 1
+            if depth == 0 and i < len(t) - 1:
+                return False
+    return True
 
 
 class Writer:
-    """writes a formula down the way an author might: optional blanks after control words, user macros"""
+    """writes a formula down the way an author might: optional blanks after control words, and user macros -
+    abbreviations (\\al, \\fr ...), pass-through macros around runs of items (\\wrap{..}, \\both{..}{..}, \\opt[..]{..} with
+    an empty default, \\optd with a default, \\mo with a conditional), \\norm[..]{..}, and calls whose expansion is empty
+    (\\nothing, \\todo{..}, \\drop[..]{..}, \\wrap{}) between items.  The expansion of what is written is the formula."""
     def __init__(self, rng, macros):
         self.rng, self.macros = rng, macros
+        self.nobr = 0        # > 0 inside an optional argument: no [ ] may be written (not even inside braces)
 
     def cw(self, name, nxt):
         # a control word: a blank is needed before a letter, optional (and skipped by TeX) otherwise
@@ -373,18 +412,114 @@ class Writer:
             return '\\' + name + ' ' + nxt
         return '\\' + name + nxt
 
-    def arg(self, b, a, nxt=''):
+    def arg(self, b, a, nxt='', mode='math'):
         if b:
-            return '{' + self.seq(a) + '}' + nxt
-        return self.item(a, 0, nxt)     # a single token: a control word needs a blank before a letter
+            return '{' + self.seq(a, mode) + '}' + nxt
+        return self.item(a, 0, nxt, mode)     # a single token: a control word needs a blank before a letter
 
-    def seq(self, seq):
+    # -- user-macro layer -------------------------------------------------------------------------------------------
+    def empty_call(self, mode, next_is_blank):
+        rng = self.rng
+        forms = ['todo', 'drop', 'wrap', 'both', 'opt', 'dropo']
+        if not next_is_blank:
+            forms.append('nothing')
+        if mode == 'math':
+            forms.append('mo')
+        f = rng.choice(forms)
+        junk = rng.choice(JUNK)
+        if f == 'nothing': return lambda nxt: self.cw('nothing', nxt)
+        if f == 'todo': return lambda nxt: '\\todo{' + junk + '}' + nxt
+        if f == 'drop': return lambda nxt: '\\drop{' + junk + '}' + nxt
+        if f == 'dropo' and not self.nobr: return lambda nxt: '\\drop[' + junk + ']{' + rng.choice(JUNK) + '}' + nxt
+        if f == 'wrap': return lambda nxt: '\\wrap{}' + nxt
+        if f == 'both': return lambda nxt: '\\both{}{}' + nxt
+        if f == 'mo': return lambda nxt: '\\mo{}' + nxt
+        return lambda nxt: '\\opt{}' + nxt
+
+    def call(self, run, mode):
+        """a pass-through macro call whose expansion is exactly the run"""
+        rng = self.rng
+        k = rng.randint(0, len(run))
+        a, b = self.seq(run[:k], mode), self.seq(run[k:], mode)
+        forms = ['wrap', 'dwrap', 'both']
+        if mode == 'math':
+            forms.append('mo')
+        if not self.nobr and '[' not in a and ']' not in a and not single_group(a.strip()):
+            forms += ['opt', 'opt', 'optd']
+        f = rng.choice(forms)
+        # `a` and `b` were written separately: joined directly they must still read the same (a control word at the end of
+        # `a` followed by a letter at the start of `b` would not)
+        joined = self.seq(run, mode) if f in ('wrap', 'dwrap', 'mo') else None
+        if f == 'wrap': return lambda nxt: '\\wrap{' + joined + '}' + nxt
+        if f == 'dwrap': return lambda nxt: '\\dwrap{' + joined + '}' + nxt
+        if f == 'mo': return lambda nxt: '\\mo{' + joined + '}' + nxt
+        if f == 'both': return lambda nxt: '\\both{' + a + '}{' + b + '}' + nxt
+        if f == 'opt':
+            return (lambda nxt: '\\opt[' + a + ']{' + b + '}' + nxt) if a else (lambda nxt: '\\opt{' + b + '}' + nxt)
+        # optd: the default 0 stands for a leading 0
+        if run[:1] == [('C', '0')] and rng.random() < 0.7:
+            rest = self.seq(run[1:], mode)
+            return lambda nxt: '\\optd{' + rest + '}' + nxt
+        return (lambda nxt: '\\optd[' + a + ']{' + b + '}' + nxt) if a else (lambda nxt: '\\optd[]{' + b + '}' + nxt)
+
+    def norm_at(self, seq, i):
+        """seq[i:] starts with \\left\\| body \\right\\| _{sub}: returns (j, body, sub) with j the index after it"""
+        if seq[i] != ('1', 'left', False, [BAR]):
+            return None
+        depth = 0
+        for j in range(i + 1, len(seq)):
+            it = seq[j]
+            if it[0] == '1' and it[1] == 'left': depth += 1
+            elif it[0] == '1' and it[1] == 'right':
+                if depth == 0:
+                    if it == ('1', 'right', False, [BAR]) and j + 1 < len(seq) and seq[j + 1][0] == 'D' and seq[j + 1][1]:
+                        return j + 2, seq[i + 1:j], seq[j + 1][2]
+                    return None
+                depth -= 1
+        return None
+
+    def seq(self, seq, mode='math'):
+        rng = self.rng
+        m = self.macros and rng is not None
+        pieces = []
+        i, n = 0, len(seq)
+        free = m and mode != 'array'       # between the cells of an array nothing is wrapped (a run may not span & or \\)
+        while i < n:
+            it = seq[i]
+            if free and rng.random() < 0.10:
+                pieces.append(self.empty_call(mode, it[0] == 'S'))
+            if m and it == ('Y', 'mathbb') and i + 1 < n and seq[i + 1] == ('G', [('C', 'R')]) and rng.random() < 0.7:
+                pieces.append(lambda nxt: self.cw('R', nxt))
+                i += 2
+                continue
+            if m and mode != 'text':
+                na = self.norm_at(seq, i)
+                if na and rng.random() < 0.8:
+                    j, body, sub = na
+                    sb = self.seq(sub, 'math') if sub else ''
+                    if not sub or (not self.nobr and '[' not in sb and ']' not in sb and not single_group(sb.strip())):
+                        bd = self.seq(body, mode)
+                        pieces.append((lambda nxt, sb=sb, bd=bd: ('\\norm[' + sb + ']{' if sb else '\\norm{') + bd + '}' + nxt))
+                        i = j
+                        continue
+            if free and rng.random() < 0.12:
+                L = rng.randint(1, 3)
+                run = seq[i:i + L]
+                if (all(x[0] != '&' and x != ('X', '\\') for x in run) and run[0][0] != 'S' and run[-1][0] != 'S'
+                        and not any(x[0] == '1' and x[1] in ('left', 'right') for x in run)):
+                    pieces.append(self.call(run, mode))
+                    i += len(run)
+                    continue
+            pieces.append(lambda nxt, i=i: self.item(seq, i, nxt, mode))
+            i += 1
+        if free and rng.random() < 0.05:
+            pieces.append(self.empty_call(mode, False))
         out = ''
-        for idx in range(len(seq) - 1, -1, -1):
-            out = self.item(seq, idx, out)
+        for pc in reversed(pieces):
+            out = pc(out)
         return out
 
-    def item(self, seq, idx, nxt):
+    def item(self, seq, idx, nxt, mode='math'):
         it = seq[idx]
         k = it[0]
         m = self.macros and self.rng is not None
@@ -393,27 +528,30 @@ class Writer:
         if k == 'Y':
             if m and it[1] == 'alpha' and self.rng.random() < 0.5:
                 return self.cw('al', nxt)
-            if m and it[1] == 'mathbb' and idx + 1 < len(seq) and seq[idx + 1] == ('G', [('C', 'R')]) and self.rng.random() < 0.7:
-                # \R stands for \mathbb{R}: drop the group already written
-                return self.cw('R', nxt[3:])
             return self.cw(it[1], nxt)
         if k == 'X': return '\\' + it[1] + nxt
-        if k == 'G': return '{' + self.seq(it[1]) + '}' + nxt
+        if k == 'G': return '{' + self.seq(it[1], 'math' if mode == 'array' else mode) + '}' + nxt
         if k == 'U': return '^' + self.arg(it[1], it[2], nxt)
         if k == 'D': return '_' + self.arg(it[1], it[2], nxt)
         if k == '1':
             if m and it[1] == 'sqrt' and it[2] and self.rng.random() < 0.4:
                 return '\\sq{' + self.seq(it[3]) + '}' + nxt
-            return self.cw(it[1], self.arg(it[2], it[3], nxt))
+            return self.cw(it[1], self.arg(it[2], it[3], nxt, 'text' if it[1] in BOXES else 'math'))
         if k == '2':
             if m and it[1] == 'frac' and it[2] and it[4] and self.rng.random() < 0.4:
                 if it[3] == [('C', '1')] and it[5] == [('C', '2')] and self.rng.random() < 0.5:
                     return self.cw('half', nxt)
                 return '\\fr{' + self.seq(it[3]) + '}{' + self.seq(it[5]) + '}' + nxt
             return self.cw(it[1], self.arg(it[2], it[3], self.arg(it[4], it[5], nxt)))
-        if k == 'R': return '\\sqrt[' + self.seq(it[1]) + ']' + self.arg(it[2], it[3], nxt)
-        if k == 'M': return '$' + self.seq(it[1]) + '$' + nxt
-        if k == 'A': return '\\begin{array}{' + it[1] + '}' + self.seq(it[2]) + '\\end{array}' + nxt
+        if k == 'R':
+            self.nobr += 1
+            try:
+                o = self.seq(it[1])
+            finally:
+                self.nobr -= 1
+            return '\\sqrt[' + o + ']' + self.arg(it[2], it[3], nxt)
+        if k == 'M': return '$' + self.seq(it[1], 'math') + '$' + nxt
+        if k == 'A': return '\\begin{array}{' + it[1] + '}' + self.seq(it[2], 'array') + '\\end{array}' + nxt
         if k == '&': return '&' + nxt
         raise ValueError(k)
 
@@ -571,6 +709,17 @@ def corpus():
         Case('vdoca', '%s %s %s %s' % (cps('code'), v, cps('\nhow to close: \\end{verbatim}\nstill inside \\end{cod\n'), cps(' after')), {'kind': 'vdoca'}, 'corpus'),
         Case('vdocpa', '%s %s %s %s' % (cps('code'), v, cps('\nplain line\n'), cps('Z\\emph{Q}')), {'kind': 'vdocpa'}, 'corpus'),
         Case('venva', '%s %s %s %s' % (cps('code'), v, cps('a \\b{c} %d\n'), cps(' x')), {'kind': 'venva'}, 'corpus'),
+        # missed mutants e1 / e3: user macros with an empty expansion, optional arguments with an empty default
+        Case('msrc', 'inline ' + ' '.join(enc(F('a+b'))),
+             {'kind': 'msrc', 'ctx': 'dollar', 'seed': 5, 'macros': True, 'written': 'a\\todo{x}+b'}, 'corpus'),
+        Case('msrc', 'equation ' + ' '.join(enc(F('a+b'))),
+             {'kind': 'msrc', 'ctx': 'equation+par', 'seed': 6, 'macros': True, 'written': '\\nothing a\\drop{y}+\\wrap{}b\\mo{}'}, 'corpus'),
+        Case('msrc', 'inline ' + ' '.join(enc([('1', 'left', False, [BAR])] + F('x') + [('1', 'right', False, [BAR]), ('D', True, [])] + F('+1'))),
+             {'kind': 'msrc', 'ctx': 'paren', 'seed': 7, 'macros': True, 'written': '\\norm{x}+1'}, 'corpus'),
+        Case('msrc', 'display ' + ' '.join(enc([('1', 'left', False, [BAR])] + F('y') + [('1', 'right', False, [BAR]), ('D', True, F('2'))])),
+             {'kind': 'msrc', 'ctx': 'bracket', 'seed': 8, 'macros': True, 'written': '\\norm[2]{y}'}, 'corpus'),
+        Case('msrc', 'inline ' + ' '.join(enc(F('0ab'))),
+             {'kind': 'msrc', 'ctx': 'textbf', 'seed': 9, 'macros': True, 'written': '\\optd{a}\\opt{b}'}, 'corpus'),
         # D15 witness: \endverbatim inside \begin{verbatim} ... \end{verbatim}
         Case('venv', '1 %s %s %s' % (v, cps('\na \\endverbatim b\n'), cps(' x')), {'kind': 'venv'}, 'corpus'),
         Case('vdoc', '1 %s %s %s' % (v, cps('\na \\endverbatim b\n'), cps(' after')), {'kind': 'vdoc'}, 'corpus'),
@@ -756,7 +905,7 @@ def impl_msrc(case):
     seq, _ = dec(words, 1)
     rng = random.Random(meta['seed'])
     w = Writer(rng, meta.get('macros'))
-    body = w.seq(seq)
+    body = meta['written'] if meta.get('written') is not None else w.seq(seq)     # corpus cases spell the formula themselves
     cname = meta['ctx']
     text = (PREAMBLE if meta.get('macros') else '') + CONTEXTS[cname][1] % body
     meta['tex'] = text
@@ -952,8 +1101,8 @@ def shrink(ctx, o, evaluate):
     st = o.case.stream
     if st in ('venv', 'vdoc', 'verb', 'verbdoc', 'vdocp', 'verbdocp', 'nsub', 'venva', 'vdoca', 'vdocpa'):
         return _shrink_str_case(o, evaluate, 2)
-    if st != 'msrc':
-        return o
+    if st != 'msrc' or (o.case.meta or {}).get('written') is not None:
+        return o       # a corpus case spells its own writing: formula and writing belong together
     best = o
     for _ in range(30):
         w = best.case.line.split()
